@@ -5,7 +5,7 @@ Only property theorems and their non-vacuity examples live here (namespace Rpyc.
 RpycModel/Srv/Server.lean, the invariant `GOk` and its preservation are in RpycModel/Srv/ServerLemmas.lean.
 
 Quantifier: every sequence (no bound on length or on the number of clients) of connect (with good or failing
-credentials) / call / graceful close / abrupt close / server close, for the threaded, pool, one-shot and forking
+credentials, or reset by the client right after the handshake) / call / graceful close / abrupt close / server close, for the threaded, pool, one-shot and forking
 automata, with or without an authenticator, any pool size ≥ 1.  TCP vs. unix sockets is not a distinction of
 the model (it is one of the correspondence).
 
@@ -175,6 +175,18 @@ theorem close_reaches_authenticating_client (s : St) (k : Nat) (hk : s.cfg.kind 
       (supply s' k c).cli k = { s'.cli k with cred := c } := by
   refine ⟨baseClose s, by simp [step, hk], ?_, ?_, ?_, ?_, ?_, ?_, ?_⟩ <;>
     simp [baseClose, hcl, closeEffect, ht, shutOne, ha, release, supply]
+
+/-- **a client that resets or vanishes while inside the authenticator** (connected with slow credentials, then gone):
+the authenticator's read fails, the exception leaves through the `finally` of `_authenticate_and_serve_client`, which
+shuts the socket down and untracks it: nothing of the server mentions the client afterwards (any state; threaded and
+forking servers, where the authenticator runs in the client's own thread / child) -/
+theorem gone_inside_authenticator_leaves_nothing (s : St) (k : Nat)
+    (hk : s.cfg.kind = .threaded ∨ s.cfg.kind = .forking) (ha : (s.cli k).phase = .authing)
+    (hs : (s.cli k).shut = false) (ho : (s.cli k).clientOpen = true) :
+    ∃ s', step s (.abruptClose k) = .ok (s', .none) ∧ (s'.cli k).tracked = false ∧ (s'.cli k).srvFd = false ∧
+      (s'.cli k).child = false ∧ (s'.cli k).shut = true ∧ (s'.cli k).phase = .done ∧ (s'.cli k).inst = (s.cli k).inst := by
+  refine ⟨_, by simp [step, ha, ho]; rfl, ?_, ?_, ?_, ?_, ?_, ?_⟩ <;>
+    rcases hk with hk | hk <;> simp [send, hs, wake, ha, hk, afterEnd, release]
 
 /-! ### the forking server: the statement fails (finding `C17:forking:close-leaves-children-serving`) -/
 
